@@ -151,6 +151,21 @@ def x9(ctx, tab, sites, scc=()):
             where = '%s/%s:%s' % (crate, fl, arg.get('l') or call.get('l'))
             r.inst(key, {'call': '%s -> %s' % (caller, callee), 'param': pn, 'argument': sx.render(arg)[:40], 'class': kind}
                    if n % 7 == 1 else None)
+            if kind in ('alias', 'same') and pn in ('pre_defines', 'defines'):
+                # inside the event-loop function the table in force is the live one (the local that `define / `undef write and nested runs
+                # replace); the parameter it was seeded from is the table as it was when the run STARTED — handing that to a nested run
+                # makes the included file / the expansion see none of the definitions and undefinitions made so far in this text
+                try:
+                    pp_ = model(ctx)
+                    loop_name_, live_ = pp_.loop_fn['name'], table_var(pp_)
+                except Exception:
+                    loop_name_, live_ = None, None
+                if loop_name_ is not None and caller == loop_name_ and live_ and what != live_ and what in names:
+                    r.fail(key + ':stale-table', where,
+                           '%s hands its parameter `%s` to %s as `%s`: that is the define table the run started with, not the live table `%s` — the nested run (included file, '
+                           'macro expansion) does not see what was defined or undefined earlier in this text, and its result then replaces the live table' %
+                           (caller, what, callee, pn, live_), {'caller': caller, 'callee': callee, 'param': pn})
+                    continue
             if kind == 'same' and (what in DEPTH or what in ('strip_comments', 'ignore_include', 'allow_incomplete')) and what in names:
                 # ... nor if the parameter is changed in place (`include_depth += 1;`): a counter bumped in place is never restored when the nested
                 # run returns, so it counts the directives seen so far instead of the nesting depth; a flag assigned in place is no longer the caller's
